@@ -23,6 +23,7 @@ import (
 	"strings"
 	"text/template"
 	"time"
+	"unicode/utf8"
 
 	"github.com/gorilla/securecookie"
 )
@@ -107,6 +108,7 @@ type vfWorld struct {
 	tmpls     []*template.Template
 	tmplUsed  map[string]bool
 	tmplRows  []string
+	incoming  []string // return URIs seen in main cookies
 }
 
 type testingTB interface {
@@ -261,6 +263,15 @@ func (w *vfWorld) noteText(s string) {
 	w.textOwner = append(w.textOwner, s)
 }
 
+func (w *vfWorld) noteIncoming(s string) {
+	for _, x := range w.incoming {
+		if x == s {
+			return
+		}
+	}
+	w.incoming = append(w.incoming, s)
+}
+
 func (w *vfWorld) nchunks(s string) int {
 	n := (len(w.comp(s)) + vfMaxCookieSize() - 1) / vfMaxCookieSize()
 	if n < 1 {
@@ -402,6 +413,9 @@ func (w *vfWorld) payloadTerm(cname string, vals map[interface{}]interface{}) st
 		str(5, "code_verifier", false)
 		str(6, "email", true)
 		str(7, "incoming_path", true)
+		if s, ok := vals["incoming_path"].(string); ok {
+			w.noteIncoming(s)
+		}
 	} else if cname == "CAcc" || cname == "CRef" {
 		if x, ok := vals["token"]; ok {
 			s, _ := x.(string)
@@ -598,7 +612,20 @@ func (w *vfWorld) do(rq vfReq) *vfObserved {
 	if method == "" {
 		method = "GET"
 	}
-	req := httptest.NewRequest(method, "http://app.example.test"+rq.Target, nil)
+	// the target is given in the form a user agent would have typed it; path and query are
+	// escaped the way a browser does before they reach the server
+	req := httptest.NewRequest(method, "http://app.example.test/", nil)
+	tpath, tquery := rq.Target, ""
+	if i := strings.Index(rq.Target, "?"); i >= 0 {
+		tpath, tquery = rq.Target[:i], rq.Target[i+1:]
+	}
+	if u, err := url.ParseRequestURI(tpath); err == nil && !strings.ContainsAny(tpath, " \"<>`{}|^") {
+		req.URL.Path, req.URL.RawPath = u.Path, u.RawPath
+	} else {
+		req.URL.Path, req.URL.RawPath = tpath, ""
+	}
+	req.URL.RawQuery = vfEscapeQuery(tquery)
+	req.RequestURI = req.URL.RequestURI()
 	if rq.Accept != "" {
 		req.Header.Set("Accept", rq.Accept)
 	} else if rq.AcceptJS {
@@ -745,7 +772,7 @@ func (w *vfWorld) messageTerm(msg string) string {
 	}
 	const pfx = "Authentication error from provider: "
 	if strings.HasPrefix(msg, pfx) {
-		return fmt.Sprintf("(MProviderError %d)", w.in.idb(msg[len(pfx):]))
+		return fmt.Sprintf("(MProviderError %d)", w.in.idb(vfValidUTF8(msg[len(pfx):])))
 	}
 	return fmt.Sprintf("(MFixed %d)", 900+w.in.id(msg))
 }
@@ -834,8 +861,8 @@ func (w *vfWorld) locationTerm(o *vfObserved, req *http.Request) string {
 				}
 			}
 			rs, rh := uint64(999996), uint64(999996)
-			if ru, err := url.Parse(q.Get("redirect_uri")); err == nil && ru.Path == vfCallbackPath && ru.RawQuery == "" {
-				rs, rh = w.in.id(ru.Scheme), w.in.id(ru.Host)
+			if sch, host, ok := vfSplitRedirectURI(q.Get("redirect_uri")); ok {
+				rs, rh = w.in.id(sch), w.in.id(host)
 			}
 			ok := q.Get("client_id") == vfClientID && q.Get("response_type") == "code" &&
 				strings.Contains(" "+q.Get("scope")+" ", " openid ")
@@ -858,6 +885,20 @@ func (w *vfWorld) locationTerm(o *vfObserved, req *http.Request) string {
 		return "(Some " + post + ")"
 	}
 	return fmt.Sprintf("(Some (LPath %d))", w.in.idb(loc))
+}
+
+// vfSplitRedirectURI reads scheme and host out of scheme://host/<callback path> without a URL parser
+// (hosts taken from X-Forwarded-Host may contain anything)
+func vfSplitRedirectURI(ru string) (scheme, host string, ok bool) {
+	i := strings.Index(ru, "://")
+	if i < 0 {
+		return "", "", false
+	}
+	rest := ru[i+3:]
+	if !strings.HasSuffix(rest, vfCallbackPath) {
+		return "", "", false
+	}
+	return ru[:i], rest[:len(rest)-len(vfCallbackPath)], true
 }
 
 func (w *vfWorld) hvalTerm(code int, v string) string {
@@ -918,8 +959,8 @@ func (w *vfWorld) callsTerm(o *vfObserved) string {
 	for _, c := range o.Calls {
 		if c.GrantType == "authorization_code" {
 			rs, rh := uint64(999996), uint64(999996)
-			if ru, err := url.Parse(c.RedirectURI); err == nil && ru.Path == vfCallbackPath {
-				rs, rh = w.in.id(ru.Scheme), w.in.id(ru.Host)
+			if sch, host, ok := vfSplitRedirectURI(c.RedirectURI); ok {
+				rs, rh = w.in.id(sch), w.in.id(host)
 			}
 			parts = append(parts, fmt.Sprintf("PExchange %d %d %d %d", w.in.id(c.Code), rs, rh, w.in.id(c.CodeVerifier)))
 		} else {
@@ -985,7 +1026,7 @@ func (w *vfWorld) record(rq vfReq, in *vfInstance, req *http.Request, jar map[st
 	uri := req.URL.RequestURI()
 	rqTerm := fmt.Sprintf("(mkReq %s %d %d %d%%nat %d %d %d %d %s %d %d %d false [%s] %s)",
 		vfBool(req.Method == "OPTIONS"), w.in.idb(req.URL.Path), w.in.idb(uri), len(uri),
-		w.in.id(q.Get("error")), w.in.idb(q.Get("error_description")), w.in.id(q.Get("state")), w.in.id(q.Get("code")),
+		w.in.id(vfValidUTF8(q.Get("error"))), w.in.idb(vfValidUTF8(q.Get("error_description"))), w.in.id(q.Get("state")), w.in.id(q.Get("code")),
 		vfBool(strings.Contains(req.Header.Get("Accept"), "application/json")), w.in.id(req.Header.Get("Origin")),
 		w.in.id(vfScheme(req)), w.in.id(vfHost(req)), strings.Join(ids, "; "), w.jarTerm(jar))
 	status := o.Status
@@ -1172,6 +1213,38 @@ func (w *vfWorld) flagsTerm(req *http.Request, jar map[string]string, o *vfObser
 	return "[" + strings.Join(parts, "; ") + "]"
 }
 
+// vfEscapeQuery percent-encodes what a browser would in a query string, leaving separators alone
+func vfEscapeQuery(q string) string {
+	var b strings.Builder
+	for i := 0; i < len(q); i++ {
+		c := q[i]
+		if c <= 0x20 || c >= 0x7f || strings.IndexByte("\"<>`{}|^\\", c) >= 0 {
+			fmt.Fprintf(&b, "%%%02X", c)
+		} else {
+			b.WriteByte(c)
+		}
+	}
+	return b.String()
+}
+
+// vfValidUTF8 replaces every invalid byte by U+FFFD (what encoding/json does when it writes a string)
+func vfValidUTF8(s string) string {
+	if utf8.ValidString(s) {
+		return s
+	}
+	var b strings.Builder
+	for i := 0; i < len(s); {
+		r, n := utf8.DecodeRuneInString(s[i:])
+		if r == utf8.RuneError && n == 1 {
+			b.WriteString("\uFFFD")
+		} else {
+			b.WriteString(s[i : i+n])
+		}
+		i += n
+	}
+	return b.String()
+}
+
 func base64Raw(s string) ([]byte, error) { return base64.RawURLEncoding.DecodeString(s) }
 
 func vfTrunc(s string, n int) string {
@@ -1259,6 +1332,16 @@ func (w *vfWorld) caseTerm(id int) string {
 		auth, end, _ := vfEndpoints(in.t)
 		insts = append(insts, fmt.Sprintf("(%d, (true, (%d, %d)))", in.idx, w.in.id(auth), w.in.id(end)))
 	}
+	// what net/http.Redirect makes of each remembered return URI (net/http is an oracle, not code under test)
+	var redirRows []string
+	for _, u := range w.incoming {
+		rec := httptest.NewRecorder()
+		http.Redirect(rec, httptest.NewRequest("GET", "http://app.example.test"+vfCallbackPath, nil), u, http.StatusFound)
+		loc := rec.Header().Get("Location")
+		if loc != u {
+			redirRows = append(redirRows, fmt.Sprintf("(%d, %d)", w.in.id(u), w.in.idb(loc)))
+		}
+	}
 	// bytes table last: everything above may have interned new strings
 	var byt []string
 	ids := make([]uint64, 0, len(w.in.bytes))
@@ -1272,7 +1355,7 @@ func (w *vfWorld) caseTerm(id int) string {
 		}
 		byt = append(byt, fmt.Sprintf("(%d, %s)", id, vfBytesTerm(w.in.strs[id])))
 	}
-	return fmt.Sprintf("(mkWCase %d %s\n [%s]\n [%s]\n [%s]\n [%s]\n [%s]\n [%s])", id, cfg,
+	return fmt.Sprintf("(mkWCase %d %s\n [%s]\n [%s]\n [%s]\n [%s]\n [%s]\n [%s]\n [%s])", id, cfg,
 		strings.Join(byt, "; "), strings.Join(toks, "; "), strings.Join(chunks, "; "), strings.Join(w.tmplRows, "; "),
-		strings.Join(insts, "; "), strings.Join(w.steps, ";\n  "))
+		strings.Join(redirRows, "; "), strings.Join(insts, "; "), strings.Join(w.steps, ";\n  "))
 }
